@@ -1360,3 +1360,30 @@ YIELD_WRAP(struct tm *, localtime, (const time_t *t), (t))
 YIELD_WRAP(struct tm *, gmtime, (const time_t *t), (t))
 YIELD_WRAP(char *, setlocale, (int c, const char *l), (c, l))
 YIELD_WRAP(void *, memchr, (const void *a, int b, size_t n), (a, b, n))
+
+// ---- blocking primitives under the baton scheduler ----------------------------------------------------
+// Only one caller thread runs at a time.  A tree may legitimately serialise something with pthread_once or
+// a mutex; if the holder is parked, blocking in the kernel would stop the whole simulation.  The init
+// routine of pthread_once therefore runs without preemption, and a contended mutex makes the caller hand
+// the baton on until it gets the lock.  (ASan/TSan interceptors still see the real calls.)
+#include <pthread.h>
+extern "C" void sim_no_preempt(int delta);
+extern "C" void fine_force_yield(void);
+extern "C" int __real_pthread_once(pthread_once_t *, void (*)(void));
+extern "C" int __wrap_pthread_once(pthread_once_t *o, void (*fn)(void)) {
+  if (!in_lib()) return __real_pthread_once(o, fn);
+  sim_no_preempt(+1);
+  int r = __real_pthread_once(o, fn);
+  sim_no_preempt(-1);
+  return r;
+}
+extern "C" int __real_pthread_mutex_lock(pthread_mutex_t *);
+extern "C" int __wrap_pthread_mutex_lock(pthread_mutex_t *m) {
+  if (!in_lib()) return __real_pthread_mutex_lock(m);
+  for (int spins = 0;; spins++) {
+    int r = pthread_mutex_trylock(m);
+    if (r != EBUSY) return r;
+    if (spins > 1000000) return __real_pthread_mutex_lock(m);
+    fine_force_yield();
+  }
+}
